@@ -9,9 +9,11 @@ CHECKS="${*:-$PROP}"
 export GOFLAGS=-mod=mod GOPROXY=off GOSUMDB=off GOTOOLCHAIN=local
 OUT=/verif/seeded/$PROP-$I
 mkdir -p "$OUT"
-cp "$SRC/mutant$I.diff" "$OUT/patch.diff"
-cp "$SRC/demo${I}_test.go" "$OUT/demo_test.go" 2>/dev/null
-cp "$SRC/note$I.md" "$OUT/note.md" 2>/dev/null
+if [ "$(readlink -f "$SRC")" != "$(readlink -f "$OUT")" ]; then
+  cp "$SRC/mutant$I.diff" "$OUT/patch.diff"
+  cp "$SRC/demo${I}_test.go" "$OUT/demo_test.go" 2>/dev/null
+  cp "$SRC/note$I.md" "$OUT/note.md" 2>/dev/null
+fi
 WT=$(mktemp -d /tmp/mt-$PROP-$I-XXXX)
 rmdir "$WT"
 git -C /repo worktree add -q --detach "$WT" HEAD || exit 3
